@@ -11,6 +11,21 @@ TEXT = {
   level="Exploration over schedules and inputs: thousands of multi-producer histories against the real BackgroundQueue with unique ids, seeded schedule perturbation at hook points, scripted per-entry stream errors; an offline checker over the stream's call log decides exactly-once, per-producer order and 'nothing else but the rate-limited report entry'. Miri explores schedules of a tiny instance and watches for data races/UB/leaks; TSan watches the native stress (thorough). Held on the executions produced, nothing more.",
   note="Trusted: the recording stream (logs under its own lock on the writer thread), the harness flow control that keeps the queue from overflowing (confirmed per history by a local metrics recorder), Miri/TSan themselves.",
   ref="DESIGN.md §7 C01"),
+ "C04": dict(
+  technique="runtime monitoring: barrier oracle over recorded stream history (incl. gated stream making early completion definite), logical-unit progress bound, stepping the real WakerTracker via hook; Miri + TSan",
+  level="Exploration over schedules and histories. Monitor 1: multi-thread histories with flush requests from every thread; every entry whose append returned before a completed request must be in the stream log before the completion with a stream flush after the last of them; in the gated variant the stream's next()/flush() are held closed and a Ready future is a definite violation. Monitor 2: never-empty queue with a fuel-gated stream: Ready within roundup32(capacity)+64 consumed entries (logical units, no clock). Monitor 3: the real WakerTracker (hook H3) stepped through every op sequence up to a length bound for capacities 1-4 and 10^5-10^6 random long ones, asserting S1/S2/L1. Special scenarios: parked writer with 59 s interval, after shutdown, racing with shutdown.",
+  note="Trusted: recording stream log; 'never' is decided by a progress watchdog (20 s without a meaningful event) only together with logical evidence. Monitor 3 drives the tracker through a cfg(metrique_verif) wrapper that forwards to the private methods unchanged.",
+  ref="DESIGN.md §7 C04"),
+ "C05": dict(
+  technique="runtime monitoring: recorded stream history + Drop/thread-exit observation vs shutdown oracle; Miri (leak/race) + TSan",
+  level="Exploration over histories and schedules: typed/boxed/global-attached queues, 1-4 client threads with clones and flushes, racer threads appending across the drop, writer optionally held inside next()/flush() so that a backlog exists when the handle is dropped; forget path included. Oracle over the stream log and the Drop / thread-exit tickets.",
+  note="Trusted: Drop impl of the recording stream and a TLS destructor on the writer thread as observation points; capacity is chosen so the queue never overflows in these histories.",
+  ref="DESIGN.md §7 C05"),
+ "C09": dict(
+  technique="runtime monitoring: gate-controlled sequential histories vs reference ring (exact), concurrent histories vs linearization-invariant constraints; Miri + TSan",
+  level="Exploration over histories and schedules: (a) deterministic sequential histories (writer held inside next() with one entry in hand) compared exactly with a displace-oldest reference ring incl. the overflow counter; (b) 1-6 producers against a stalled/slow/free writer: per-producer order, conservation appended = delivered + overflow counter, every lost entry has >= capacity later appends; appends must return while the stream gate is closed.",
+  note="Trusted: the gate protocol that makes (a) sequential (waits for the stream's own 'blocked' flag); local metrics recorder for the counter.",
+  ref="DESIGN.md §7 C09"),
 }
 
 NOT_YET = "check not built yet in this round (design in DESIGN.md §7); not claimed"
